@@ -5,7 +5,7 @@
    The model's outcome is compared with Configuration().read and the potable CLI on generated well-formed models and on
    every catalogue mutation of them; malformations below the lexical level of the model (non-numeric tokens, placeholders,
    text that is not an INI file, formula syntax) are checked by the oracle only. *)
-From V Require Import lib.Common model.Validate proof.C16.
+From V Require Import lib.Common model.Validate proof.C16 model.Ini proof.IniProofs proof.IniFile.
 Local Open Scope Z_scope.
 
 (* --- a table is written exactly for the well-formed models; every other model is a configuration error; no third outcome *)
@@ -81,3 +81,11 @@ Definition ex_bad : defn :=
   Defn [(0, PMod MSpline [Defn [(0, ex_buck 0); (10, PInst {| i_label := LBuck4Spline; i_params := [20] |}); (20, ex_buck 32)]])].
 Example c16_example : validate (ex_model ex_defn) = Ok tt /\ wf_model (ex_model ex_defn) /\ validate (ex_model ex_bad) = CfgErr.
 Proof. split; [reflexivity|split; [apply accepts_iff_wf; reflexivity|reflexivity]]. Qed.
+
+(* --- text that is not an INI file (model/Ini.v, the line parser of configparser as the repository configures it): when the
+       first line that is neither blank nor a comment is not a section header the parse fails -- ConfigParser turns every
+       configparser.Error into a configuration error (asserted on the AST of _init_config_parser) *)
+Theorem c16_not_ini_text : forall pre l rest, Forall skipped pre -> is_comment l = false -> strip l <> [] -> header_of (strip l) = None ->
+  parse_ini (pre ++ l :: rest) = None.
+Proof. exact missing_header. Qed.
+Print Assumptions c16_not_ini_text.
